@@ -106,7 +106,7 @@ func execCapScript(script string) string {
 	}
 	var inflight []flight
 	var weak *capnp.WeakClient
-	var staleT *capnp.Client // the T handle released most recently
+	var staleT *capnp.Client   // the T handle released most recently
 	var parked []chan struct{} // Release / Fulfill calls that did not return yet
 	// settle waits for background operations that can finish to finish
 	settle := func() {
